@@ -4,6 +4,7 @@ package main
 
 import (
 	"fmt"
+	"go/constant"
 	"go/types"
 	"os"
 	"strings"
@@ -362,6 +363,17 @@ func (f *frame) pureCall(in *ssa.Call) {
 			}
 			r := x.havocPure("norand", "Int")
 			setT(r, r)
+			return
+		case "ncalls":
+			// number of calls of the named callee completed so far on this path (ghost counter)
+			if c, ok := in.Call.Args[0].(*ssa.Const); ok && c.Value != nil {
+				cn := "Ghost_calls_" + sanitize(constant.StringVal(c.Value))
+				x.comp(cn, "Int")
+				setT(f.mem[0].heapOf(cn, "Int"), f.mem[1].heapOf(cn, "Int"))
+				return
+			}
+			x.errorf("ncalls needs a string literal")
+			setT("0", "0")
 			return
 		case "isstatus":
 			setT(x.isStatus(args[0][0].T), x.isStatus(args[0][1].T))
